@@ -26,7 +26,7 @@ from gen.models import ModelGen
 META = {
     "technique": "c2lean-generated mju_isBad (regenerated each run, bitwise translation validation on NaN/Inf/boundary bit patterns) + value-class model of the IEEE comparisons; translator-generated control skeletons of mj_checkPos/Vel/Acc and mj_step (translate/skeleton.py) given an atom semantics in Lean and PROVED to compute a small decision-logic model (loop induction over the scanned index list, simp over the generated program); Lean 4 proofs over the reals / over arbitrary carriers; differential of the executed generated skeleton against the real check functions on a real mjModel; injection oracle on mj_step through the shared engine REPL",
     "text": "Proved for all inputs: the generated mju_isBad returns 1 exactly when |x| > mjMAXVAL = 1e10 (reals) and the value-class model of the C expression is additionally true for NaN and both infinities; running the generated skeleton of mj_checkPos / mj_checkVel / mj_checkAcc under the stated atom semantics terminates normally and equals the decision logic: the first bad entry in scan order (every index for positions; every index, or the awake dofs when sleeping filters, for velocities / accelerations) triggers mj_warning, then mj_resetData unless mjDSBL_AUTORESET, then number++ / lastinfo = index, then (accelerations, autoreset) mj_forward; so a bad entry at ANY scanned index is caught, the counter ends at old+2 without autoreset and at 1 with autoreset (the reset clears the warning record first), the data slice is the reset value, and a clean vector is left untouched; the generated mj_step runs checkPos, checkVel, forward, checkAcc in this order. Sampled on the real engine: injection of NaN/±Inf/±1e11 at indices of qpos, qvel, act, ctrl, qfrc_applied, xfrc_applied followed by mj_step.",
-    "note": "The statement 'after mj_step every state component is finite' is NOT proved (it would need models of mj_forward and of the integrators): post_step_finite_partial only bounds the explicit Euler update of a scalar joint over the reals when no check fires; the engine oracle samples mj_step itself. NaN/Inf are not reals: their treatment by mju_isBad is a hand model of the IEEE comparison rules tied to the real function by the bitwise differential only. The atom semantics (what `i++`, `mj_resetData`, ... mean on the modelled slice) is hand-written; the control structure is generated. mj_resetData is modelled only on the slice (checked vector, its warning record, ghost call counters). With autoreset the warning counter does not 'increase' when it was already >= 1: the reset clears it and it is then set to 1 (modelled and proved as coded; the oracle requires counter >= 1 after a reset and old+2 without autoreset). FINDINGS reported by the oracle (the literal first sentence of the property does not hold on the real code; keys c30:nonfinite-after-step:<field>, c30:nonfinite-after-two-steps:<field>): the checks run only at the start of mj_step and after the first mj_forward, so (i) with RK4 a huge finite force / a non-finite activation behind a force clamp blows up in the later stages and the step returns NaN (caught by the next step), (ii) with the implicit integrators mjd_actuator_vel reads the raw d->ctrl, so a NaN control poisons the step although mjWARN_BADCTRL zeroed the local copy, (iii) act is examined by no check: a non-finite activation of an actuator that produces no force (disabled group / mjDSBL_ACTUATION) is carried along forever.",
+    "note": "The statement 'after mj_step every state component is finite' is NOT proved (it would need models of mj_forward and of the integrators): post_step_finite_partial only bounds the explicit Euler update of a scalar joint over the reals when no check fires; the engine oracle samples mj_step itself. NaN/Inf are not reals: their treatment by mju_isBad is a hand model of the IEEE comparison rules tied to the real function by the bitwise differential only. The atom semantics (what `i++`, `mj_resetData`, ... mean on the modelled slice) is hand-written; the control structure is generated. mj_resetData is modelled only on the slice (checked vector, its warning record, ghost call counters). With autoreset the warning counter does not 'increase' when it was already >= 1: the reset clears it and it is then set to 1 (modelled and proved as coded; the oracle requires counter >= 1 after a reset and old+2 without autoreset). FINDINGS reported by the oracle (the literal first sentence of the property does not hold on the real code; recorded in known_findings.json under narrow keys: c30:nonfinite-after-step:ctrl only for implicit/implicitfast with a stateless affine-gain actuator with velocity coefficient, :qfrc_applied / :xfrc_applied only for RK4 with a huge finite force, :act and c30:nonfinite-after-two-steps:act only for activations; any other way gets the suffix :other-mechanism or its own field key and is a violation): the checks run only at the start of mj_step and after the first mj_forward, so (i) with RK4 a huge finite force / a non-finite activation behind a force clamp blows up in the later stages and the step returns NaN (caught by the next step), (ii) with the implicit integrators mjd_actuator_vel reads the raw d->ctrl, so a NaN control poisons the step although mjWARN_BADCTRL zeroed the local copy, (iii) act is examined by no check: a non-finite activation of an actuator that produces no force (disabled group / mjDSBL_ACTUATION) is carried along forever.",
 }
 
 P = "MjProof.C30."
@@ -244,6 +244,8 @@ def engine_oracle(ctx, exe, nmodels, per_field):
                     flags = int(l.split()[2])
             if not autoreset:
                 R.cmd("setm opt.disableflags %d" % (flags | E("mjDSBL_AUTORESET")))
+            for mf in ("actuator_gaintype", "actuator_gainprm", "actuator_dyntype"):
+                R.cmd("numm " + mf, ("mf", mf))
             for k in (0, 1, 2):
                 R.cmd("data %d" % k)
             base = []
@@ -295,6 +297,14 @@ def engine_oracle(ctx, exe, nmodels, per_field):
             for tg, o in zip(R.tags, out):
                 if tg:
                     res[tg] = o
+            # does the model contain the situation of the known finding c30:nonfinite-after-step:ctrl?  a stateless
+            # (dyntype none) actuator with affine gain whose velocity coefficient gainprm[2] is non-zero: mjd_actuator_vel
+            # multiplies that coefficient by the RAW d->ctrl when an implicit integrator builds qDeriv
+            gt = [int(float(x)) for x in (parse_nums(res[("mf", "actuator_gaintype")]) or [])]
+            dt = [int(float(x)) for x in (parse_nums(res[("mf", "actuator_dyntype")]) or [])]
+            gp = parse_nums(res[("mf", "actuator_gainprm")]) or []
+            ngain = len(gp) // len(gt) if gt else 0
+            velgain = any(gt[a] == E("mjGAIN_AFFINE") and dt[a] == E("mjDYN_NONE") and gp[ngain * a + 2] != 0 for a in range(len(gt)))
             ref1 = {f: res[("ref1", f)] for f in STATE_FIELDS + ("time",)}
             ref2 = {f: res[("ref2", f)] for f in STATE_FIELDS + ("time",)}
             for ci, (f, i, v) in enumerate(cases):
@@ -328,7 +338,14 @@ def engine_oracle(ctx, exe, nmodels, per_field):
                     # A: the state is finite after the step
                     if nonfinite:
                         stats["nonfinite_after_one_step"][f + ":" + integ] = stats["nonfinite_after_one_step"].get(f + ":" + integ, 0) + 1
-                        fail("c30:nonfinite-after-step:" + f,
+                        # narrow keys: the recorded (known) mechanisms get the plain key, anything else a distinct one
+                        if f == "ctrl":
+                            narrow = integ in ("implicit", "implicitfast") and velgain
+                        elif f in ("qfrc_applied", "xfrc_applied"):
+                            narrow = integ == "RK4" and v in ("1e11", "-1e11")
+                        else:
+                            narrow = True          # act: never scanned by mj_check*; qpos / qvel: no recorded finding
+                        fail("c30:nonfinite-after-step:" + f + ("" if narrow else ":other-mechanism"),
                              "after injecting %s into %s[%d] and calling mj_step ONCE, %s contains a non-finite value (integrator %s, variant %s, warnings %s)"
                              % (v, f, i, "/".join(nonfinite), integ, variant, [w1[w] for w in (W_QPOS, W_QVEL, W_QACC, W_CTRL)]), rp)
                         after2 = {g: res[("after2", ci, g)] for g in STATE_FIELDS}
